@@ -175,6 +175,10 @@ func (c *cdbdriver) GetLocationByMap(ipnet *net.IPNet, mapID []byte, context Con
 		if mask > maxMask {
 			continue
 		}
+		if isv4 && mask < 8*(net.IPv6len-net.IPv4len) {
+			// shorter than the v4-mapped prefix: a length of an IPv6 subnet (combined maskLens), never a match for IPv4
+			continue
+		}
 		// Finish creating the search key:
 		// "{key_prefix}{ipv6_subnet_bitmap}"
 		currentCIDRMask := cachedCIDRMask[mask]
